@@ -45,6 +45,7 @@ def unbits(b):
 
 SNIPPET_SRC = '''
 import random
+import itertools
 
 def g_unbound(a, b, count):
     """a local that one path leaves unbound; and / or with an operand that may raise; chained comparison"""
@@ -90,11 +91,40 @@ def g_draws(a, count):
     y = (a if random.random() < x else -a) * x
     yield y
     raise KeyError
+
+def _h_check(lo, hi):
+    """a private helper that only validates"""
+    if hi < lo:
+        raise ValueError('bad %r' % hi)
+
+def _h_step(x, f):
+    if x == 0:
+        x = 1
+    elif x < 1.0:
+        x = x * f
+    return 1 if x > 1.0 else x
+
+def _h_twice(x, f):
+    y = _h_step(x, f)
+    return y * f
+
+def g_helpers(a, b, count):
+    """helpers inlined by the pre-pass (one calling another), `for … in itertools.count()` with a leading break"""
+    _h_check(a, b)
+    x = a
+    for k in itertools.count():
+        if not (count == 'go' or k < count):
+            break
+        yield x
+        x = _h_step(x, b)
+    z = _h_twice(x, b)
+    yield z - random.random()
 '''
 SNIPPET_SPECS = [
     {'qualname': 'g_unbound', 'params': {'a': 'A', 'b': 'A', 'count': 'Count'}},
     {'qualname': 'g_nested', 'params': {'a': 'A', 'b': 'A', 'count': 'Count'}},
     {'qualname': 'g_draws', 'params': {'a': 'A', 'count': 'Count'}},
+    {'qualname': 'g_helpers', 'params': {'a': 'A', 'b': 'A', 'count': 'Count'}},
 ]
 for _s in SNIPPET_SPECS:
     _s.update(module='snippets', lean_name=_s['qualname'], kind='generator', result='A', tie_theorem='-', raises=True)
@@ -123,6 +153,14 @@ REJECT = {
     'while else': 'def f(a):\n    while a < 1.0:\n        a = a * a\n    else:\n        yield a\n',
     'chained comparison with draw': 'def f(a):\n    if 0.0 <= random.random() <= a:\n        yield a\n',
     'count times carrier': 'def f(a, count):\n    yield a * count\n',
+    'helper with an early return': 'def _h(x):\n    if x < 1.0:\n        return x\n    return x * x\n\ndef f(a):\n    y = _h(a)\n    yield y\n',
+    'helper whose value is dropped': 'def _h(x):\n    return x * x\n\ndef f(a):\n    _h(a)\n    yield a\n',
+    'helper reading a global the caller shadows': 'K = 1.0\n\ndef _h(x):\n    return x * K\n\ndef f(a):\n    K = a\n    y = _h(a)\n    yield y * K\n',
+    'public helper': 'def h(x):\n    return x * x\n\ndef f(a):\n    y = h(a)\n    yield y\n',
+    'helper call inside an expression': 'def _h(x):\n    return x * x\n\ndef f(a):\n    yield a - _h(a)\n',
+    'for-count with continue': 'import itertools\n\ndef f(a):\n    for k in itertools.count():\n        if k > 3:\n            break\n        if a < 1.0:\n            continue\n        yield a\n',
+    'for-count without a leading break': 'import itertools\n\ndef f(a):\n    for k in itertools.count():\n        yield a\n',
+    'itertools not imported': 'def f(a):\n    for k in itertools.count():\n        if k > 3:\n            break\n        yield a\n',
 }
 
 
@@ -178,6 +216,21 @@ def run_python(mod, qualname, args, n, draws):
         mod.__dict__['random'] = saved
 
 
+def run_python_fn(mod, qualname, args, draws):
+    """a plain function returning a list of floats -> same observation format as a generator run to its end"""
+    fake = FakeRandom(draws)
+    saved = mod.__dict__.get('random')
+    mod.__dict__['random'] = fake
+    try:
+        try:
+            return [bits(v) for v in getattr(mod, qualname)(*args)], 'returned'
+        except Exception as e:  # noqa: BLE001
+            nm = type(e).__name__
+            return [], 'raised ' + (nm if nm in EXC_NAMES else 'Other')
+    finally:
+        mod.__dict__['random'] = saved
+
+
 def enc_arg(t, v):
     if t == 'A':
         return str(bits(v))
@@ -213,6 +266,11 @@ def showExc : PyExc → String
   | .Other => "Other" | .OutOfFuel => "OutOfFuel"
 def showStop : Stop → String
   | .suspended => "suspended" | .returned => "returned" | .raised e => "raised " ++ showExc e | .outOfFuel => "outOfFuel"
+def showFn (r : Except PyExc (List Float)) : String :=
+  match r with
+  | .ok l => (if l.isEmpty then "-" else ",".intercalate (l.map fun x => toString x.toBits.toNat)) ++ " returned"
+  | .error .OutOfFuel => "- outOfFuel"
+  | .error e => "- raised " ++ showExc e
 def showRes (r : List Float × Stop) : String :=
   (if r.1.isEmpty then "-" else ",".intercalate (r.1.map fun x => toString x.toBits.toNat)) ++ " " ++ showStop r.2
 ''')
@@ -225,9 +283,11 @@ def showRes (r : List Float × Stop) : String :=
         somes = ', '.join('some v%d' % i for i in range(len(ps)))
         arms.append('  | "%d" :: fuel :: n :: draws :: %s[] =>\n'
                     '    (match fuel.toNat?, n.toNat?, parseDraws draws, %s with\n'
-                    '     | some fuel, some n, some ds, %s => showRes (Src.%s.%s fuel n (fun i => ds.getD i 0) %s)\n'
+                    '     | some fuel, some n, some ds, %s => %s (Src.%s.%s fuel %s(fun i => ds.getD i 0) %s)\n'
                     '     | %s => "bad-args")' % (
-                        k, ''.join(nm + ' :: ' for nm in names), parses, somes, short, spec['lean_name'],
+                        k, ''.join(nm + ' :: ' for nm in names), parses, somes,
+                        'showRes' if spec['kind'] == 'generator' else 'showFn', short, spec['lean_name'],
+                        'n ' if spec['kind'] == 'generator' else '',
                         ' '.join('v%d' % i for i in range(len(ps))), ', '.join('_' for _ in range(len(ps) + 3))))
     body.append('def handle (ws : List String) : String :=\n  match ws with\n' + '\n'.join(arms) + '\n  | _ => "bad-function"\n')
     body.append('''partial def loop (h : IO.FS.Stream) (out : IO.FS.Stream) : IO Unit := do
@@ -314,7 +374,7 @@ def run(pids, quick=False, seed=0, verbose=True):
     sn_mod = types.ModuleType('c15_snippets')
     exec(compile(SNIPPET_SRC, 'c15_snippets', 'exec'), sn_mod.__dict__)
     rng = random.Random('py2lean-c15-selftest-%d' % seed)
-    fns = [(sp, module_name.split('.')[-1]) for sp in specs if sp['kind'] == 'generator'] + \
+    fns = [(sp, module_name.split('.')[-1]) for sp in specs] + \
           [(sp, 'snippets') for sp in SNIPPET_SPECS]
     lines, meta = [], []
     for k, (spec, short) in enumerate(fns):
@@ -325,6 +385,8 @@ def run(pids, quick=False, seed=0, verbose=True):
             if list(spec['params']) != ['start', 'stop', 'count', 'factor', 'jitter']:
                 raise common.InfraError('no argument family for %s' % spec['qualname'])
             cases = [(a, py_args_backoff(rng, a), n, d) for a, n, d in backoff_cases(rng, quick)]
+            if spec['kind'] == 'function':       # the whole list: the script must cover every value
+                cases = [(a, pa, 0, d + [rng.random() for _ in range(16)]) for a, pa, n, d in cases[::2]]
             pymod = mod
         for args, pyargs, n, draws in cases:
             toks = [str(k), str(FUEL), str(n), ','.join(str(bits(x)) for x in draws) if draws else '-']
@@ -363,7 +425,10 @@ def run(pids, quick=False, seed=0, verbose=True):
             continue
         lean_vals = [] if vals_s == '-' else [int(x) for x in vals_s.split(',')]
         with common.time_limit(20):
-            want_vals, want_how = run_python(pymod, spec['qualname'], pyargs, n, draws)
+            if spec['kind'] == 'function':
+                want_vals, want_how = run_python_fn(pymod, spec['qualname'], pyargs, draws)
+            else:
+                want_vals, want_how = run_python(pymod, spec['qualname'], pyargs, n, draws)
         r['compared'] += 1
         if want_how.startswith('raised'):
             r['python_raises'] += 1
